@@ -113,3 +113,44 @@ pub fn clone_two_archetypes<const N1: usize, const N2: usize>() {
 }
 
 harness! { fn c13_clone_two_archetypes_2_3() unwind(5) { clone_two_archetypes::<2, 3>() } }
+
+/// `clone_from` (std's provided method unless the crate overrides it to recycle allocations):
+/// an ARBITRARY target state of the same capacity is overwritten by an arbitrary source state.
+/// Afterwards the target equals the source field for field over the whole capacity, the source
+/// is untouched, and the source's handles resolve in the target. Differing capacities are
+/// outside (which capacity the target ends with is not specified).
+pub fn clone_from_step<M: MArch, const N: usize>(paths: u8)
+where
+    M::Arch: Clone,
+{
+    let s: Model<N> = Model::any_inv();
+    let t: Model<N> = Model::any_inv();
+    let mut src = load::<M, N>(&s);
+    let mut dst = load::<M, N>(&t);
+    let world_level = sym::any_bool();
+    if world_level {
+        dst.clone_from(&src);
+    } else {
+        M::arch_mut(&mut dst).clone_from(M::arch(&src));
+    }
+    assert!(M::arch(&dst).len() == s.len && M::arch(&dst).capacity() == N, "clone_from: target has another len/capacity than the source");
+    let md: Model<N> = read::<M, N>(&mut dst);
+    assert_unchanged::<M, N>(&s, &md);
+    let ms: Model<N> = read::<M, N>(&mut src);
+    assert_unchanged::<M, N>(&s, &ms);
+    if N > 0 {
+        let (key, ver) = any_issued_like::<N>();
+        probe_entity::<M, N>(&mut dst, &s, key, ver, paths);
+        let (idx, dv) = any_direct_like::<N>(&s);
+        probe_direct::<M, N>(&mut dst, &s, idx, dv, paths & P_ARCH);
+    }
+    cover!(N < 2 || t.len > s.len, "target held more entities than the source");
+    cover!(N < 2 || t.len < s.len, "target held fewer entities than the source");
+    cover!(N < 2 || (t.len == s.len && t.len > 0 && t.free_head != s.free_head), "same population, other free list");
+    std::mem::forget(src);
+    std::mem::forget(dst);
+}
+
+harness! { fn c13_clone_from_foo_3() unwind(5) { clone_from_step::<w1::Foo, 3>(P_ARCH) } }
+harness! { fn c13_clone_from_foo_2() unwind(4) { clone_from_step::<w1::Foo, 2>(P_ALL) } }
+harness! { fn c13_clone_from_tri_2() unwind(4) { clone_from_step::<w3::Tri, 2>(P_ARCH) } }
